@@ -918,90 +918,425 @@ Proof.
   rewrite Ha, Hb. split; auto. apply assoc_none; intro; apply Hk, in_or_app; right; apply in_or_app; auto.
 Qed.
 
-(** * The default encoding of string-valued sets can be read back *)
+(** * Decimal numerals: what FormatInt writes reads back as the same int64 *)
+Lemma dec_digits_app f : forall n a1 a2, dec_digits f n (a1 ++ a2) = dec_digits f n a1 ++ a2.
+Proof.
+  induction f as [|f IH]; intros n a1 a2; [reflexivity|]. cbn [dec_digits].
+  destruct (n <? 10); [reflexivity|]. exact (IH (n / 10) ((48 + n mod 10) :: a1) a2).
+Qed.
+
+Lemma dec_digits_step f n :
+  dec_digits (S f) n [] = if n <? 10 then [48 + n] else dec_digits f (n / 10) [] ++ [48 + n mod 10].
+Proof.
+  cbn [dec_digits]. destruct (n <? 10) eqn:E.
+  - apply N.ltb_lt in E. now rewrite N.mod_small.
+  - exact (dec_digits_app f (n / 10) [] [48 + n mod 10]).
+Qed.
+
+Lemma parse_dec_acc_app s1 : forall s2 a,
+  parse_dec_acc (s1 ++ s2) a = match parse_dec_acc s1 a with Some a' => parse_dec_acc s2 a' | None => None end.
+Proof.
+  induction s1 as [|c s1 IH]; intros s2 a; [reflexivity|]. cbn [app parse_dec_acc].
+  destruct (is_digit c); [apply IH|reflexivity].
+Qed.
+
+Lemma is_digit_small d : d < 10 -> is_digit (48 + d) = true /\ 48 + d - 48 = d.
+Proof. intro H. unfold is_digit. split; [apply andb_true_iff; split; apply N.leb_le; lia | lia]. Qed.
+
+Lemma parse_dec_digits f : forall n, n < 10 ^ N.of_nat (S f) ->
+  parse_dec_acc (dec_digits (S f) n []) 0 = Some n /\ dec_digits (S f) n [] <> [] /\
+  forallb is_digit (dec_digits (S f) n []) = true.
+Proof.
+  induction f as [|f IH]; intros n Hn; rewrite dec_digits_step; destruct (n <? 10) eqn:E.
+  - apply N.ltb_lt in E. destruct (is_digit_small n E) as [D1 D2]. cbn [parse_dec_acc forallb]. rewrite D1, D2.
+    repeat split; try discriminate; try reflexivity; f_equal; lia.
+  - apply N.ltb_ge in E. cbn in Hn. lia.
+  - apply N.ltb_lt in E. destruct (is_digit_small n E) as [D1 D2]. cbn [parse_dec_acc forallb]. rewrite D1, D2.
+    repeat split; try discriminate; try reflexivity; f_equal; lia.
+  - apply N.ltb_ge in E.
+    assert (Hd : n / 10 < 10 ^ N.of_nat (S f)).
+    { apply N.div_lt_upper_bound; [lia|]. rewrite (Nnat.Nat2N.inj_succ (S f)), N.pow_succ_r' in Hn. lia. }
+    destruct (IH (n / 10) Hd) as (I1 & I2 & I3).
+    assert (Hm : n mod 10 < 10) by (apply N.mod_lt; lia). destruct (is_digit_small _ Hm) as [D1 D2].
+    rewrite parse_dec_acc_app, I1. cbn [parse_dec_acc]. rewrite D1, D2. repeat split.
+    + f_equal. rewrite (N.div_mod n 10) at 3 by lia. lia.
+    + destruct (dec_digits (S f) (n / 10) []); [congruence|discriminate].
+    + rewrite forallb_app, I3. cbn [forallb andb]. now rewrite D1.
+Qed.
+
+Lemma dec_spec n : n < TWO64 ->
+  parse_dec (dec n) = Some n /\ forallb is_digit (dec n) = true /\ dec n <> [].
+Proof.
+  intro H. assert (E10 : 10 ^ N.of_nat 25 = 10000000000000000000000000) by (vm_compute; reflexivity).
+  assert (Hn : n < 10 ^ N.of_nat 25) by (rewrite E10; unfold TWO64 in H; lia).
+  destruct (parse_dec_digits 24 n Hn) as (I1 & I2 & I3). unfold dec, parse_dec.
+  split; [|split; assumption].
+  destruct (dec_digits 25 n []) eqn:E; [congruence|]. exact I1.
+Qed.
+
+Lemma parse_i64_dec n : n < TWO64 -> parse_i64 (dec_i64 n) = Some (i64_of_bits n).
+Proof.
+  intro H. unfold dec_i64, i64_of_bits. destruct (n <? TWO63) eqn:E.
+  - destruct (dec_spec n H) as (P & D & Ne). unfold parse_i64.
+    destruct (dec n) as [|c r] eqn:Ed; [congruence|].
+    cbn [forallb] in D. apply andb_true_iff in D as [Dc _].
+    assert (c <> 45). { unfold is_digit in Dc. apply andb_true_iff in Dc as [Dc _]. apply N.leb_le in Dc. lia. }
+    destruct c as [|p]; [now rewrite P|].
+    do 6 (destruct p as [p|p|]; try (now rewrite P)). congruence.
+  - apply N.ltb_ge in E. assert (H2 : TWO64 - n < TWO64) by (unfold TWO64, TWO63 in *; lia).
+    destruct (dec_spec _ H2) as (P & _ & _). cbn [parse_i64]. rewrite P. f_equal.
+    unfold TWO64, TWO63 in *. lia.
+Qed.
+
+Lemma i64_bits_roundtrip z : (- Z.of_N TWO63 <= z < Z.of_N TWO63)%Z ->
+  bits_of_i64 z < TWO64 /\ i64_of_bits (bits_of_i64 z) = z.
+Proof.
+  intro H. unfold bits_of_i64, i64_of_bits. unfold TWO63, TWO64 in *.
+  change (Z.of_N 18446744073709551616) with 18446744073709551616%Z in *.
+  change (Z.of_N 9223372036854775808) with 9223372036854775808%Z in *.
+  destruct (Z_lt_le_dec z 0) as [Hn|Hp].
+  - assert (E : (z mod 18446744073709551616 = z + 18446744073709551616)%Z).
+    { symmetry. apply (Z.mod_unique _ _ (-1)); lia. }
+    rewrite E. split; [lia|]. destruct (N.ltb_spec (Z.to_N (z + 18446744073709551616)) 9223372036854775808); lia.
+  - rewrite Z.mod_small by lia. split; [lia|].
+    destruct (N.ltb_spec (Z.to_N z) 9223372036854775808); lia.
+Qed.
+
+(** decode . encode = id on the int64 range. *)
+Lemma i64_text_roundtrip z : (- Z.of_N TWO63 <= z < Z.of_N TWO63)%Z ->
+  parse_i64 (dec_i64 (bits_of_i64 z)) = Some z.
+Proof. intro H. destruct (i64_bits_roundtrip z H) as [B E]. now rewrite parse_i64_dec, E. Qed.
+
+(** * Tokens of an encoded set *)
 Definition special (c : N) : bool := (c =? 61) || (c =? 44) || (c =? 92).
 
 Lemma esc_cons c a : esc (c :: a) = (if special c then [92; c] else [c]) ++ esc a.
 Proof. reflexivity. Qed.
 
-Lemma split_unesc_esc sep a : sep = 44 \/ sep = 61 -> forall rest cur,
-  split_unesc sep (esc a ++ rest) cur = split_unesc sep rest (rev (esc a) ++ cur).
-Proof.
-  intro Hs. induction a as [|c a IH]; intros rest cur; [reflexivity|].
-  rewrite esc_cons. destruct (special c) eqn:E.
-  - cbn [app split_unesc]. cbn [N.eqb Pos.eqb]. rewrite IH. cbn [rev]. now rewrite <- !app_assoc.
-  - unfold special in E. apply orb_false_iff in E as [E E3]. apply orb_false_iff in E as [E1 E2].
-    cbn [app split_unesc]. rewrite E3.
-    assert (Es : (c =? sep) = false) by (destruct Hs as [->| ->]; auto). rewrite Es.
-    rewrite IH. cbn [rev]. now rewrite <- app_assoc.
-Qed.
-
-Lemma unesc_esc a r : unesc (esc a ++ r) = a ++ unesc r.
+Lemma tok_esc a rest : tok (esc a ++ rest) = map TChar a ++ tok rest.
 Proof.
   induction a as [|c a IH]; [reflexivity|]. rewrite esc_cons. destruct (special c) eqn:E.
-  - cbn [app unesc]. cbn [N.eqb Pos.eqb]. now rewrite IH.
-  - unfold special in E. apply orb_false_iff in E as [_ E3]. cbn [app unesc]. rewrite E3. now rewrite IH.
+  - cbn [app tok map]. cbn [N.eqb Pos.eqb]. now rewrite IH.
+  - unfold special in E. apply orb_false_iff in E as [E E3]. apply orb_false_iff in E as [E1 E2].
+    cbn [app tok map]. now rewrite E3, E2, E1, IH.
 Qed.
 
-Definition enc_item (p : bytes * bytes) : bytes := esc (fst p) ++ [61] ++ esc (snd p).
+(** Text that holds no backslash and no '=' (it may hold ','). *)
+Definition plain_char (c : N) : bool := negb (c =? 92) && negb (c =? 61).
+Definition plain_text (t : bytes) : bool := forallb plain_char t.
+Definition ptok (c : N) : token := if c =? 44 then TComma else TChar c.
 
-Lemma decode_item_enc p : decode_item (enc_item p) = Some p.
+Lemma tok_plain t rest : plain_text t = true -> tok (t ++ rest) = map ptok t ++ tok rest.
 Proof.
-  destruct p as [k v]. unfold decode_item, enc_item. cbn [fst snd].
-  rewrite split_unesc_esc by auto. cbn [app split_unesc]. cbn [N.eqb Pos.eqb].
-  rewrite app_nil_r, rev_involutive.
-  rewrite <- (app_nil_r (esc v)) at 1. rewrite split_unesc_esc by auto. cbn [split_unesc].
-  rewrite app_nil_r, rev_involutive.
-  rewrite <- (app_nil_r (esc k)) at 1. rewrite <- (app_nil_r (esc v)) at 1. now rewrite !unesc_esc, !app_nil_r.
+  induction t as [|c t IH]; [reflexivity|]. cbn [plain_text forallb]. intro H.
+  apply andb_true_iff in H as [Hc Ht]. unfold plain_char in Hc. apply andb_true_iff in Hc as [H1 H2].
+  apply negb_true_iff in H1, H2. cbn [app tok map]. rewrite H1. unfold ptok at 1.
+  destruct (c =? 44); [now rewrite IH|]. now rewrite H2, IH.
 Qed.
 
-Lemma split44_item p rest cur :
-  split_unesc 44 (enc_item p ++ rest) cur = split_unesc 44 rest (rev (enc_item p) ++ cur).
+Lemma untok_tchar a : untok (map TChar a) = a.
+Proof. unfold untok. rewrite map_map. cbn. apply map_id. Qed.
+
+Lemma untok_ptok t : untok (map ptok t) = t.
 Proof.
-  destruct p as [k v]. unfold enc_item. cbn [fst snd]. rewrite <- !app_assoc.
-  rewrite split_unesc_esc by auto. cbn [app split_unesc]. cbn [N.eqb Pos.eqb].
-  rewrite split_unesc_esc by auto. rewrite !rev_app_distr. cbn [rev app]. now rewrite <- !app_assoc.
+  unfold untok. rewrite map_map. rewrite <- (map_id t) at 2. apply map_ext. intro c.
+  unfold ptok. destruct (c =? 44) eqn:E; [apply N.eqb_eq in E; now subst|reflexivity].
 Qed.
 
-Lemma split44_join x l : split_unesc 44 (join [44] (map enc_item (x :: l))) [] = map enc_item (x :: l).
+Definition noeq (ts : list token) : bool := forallb (fun t => negb (is_eq t)) ts.
+Definition nocomma (ts : list token) : bool := forallb (fun t => negb (is_comma t)) ts.
+
+Lemma noeq_tchar a : noeq (map TChar a) = true.
+Proof. induction a; cbn; auto. Qed.
+Lemma nocomma_tchar a : nocomma (map TChar a) = true.
+Proof. induction a; cbn; auto. Qed.
+Lemma noeq_ptok t : noeq (map ptok t) = true.
+Proof. induction t as [|c t IH]; cbn; auto. unfold ptok at 1. destruct (c =? 44); cbn; auto. Qed.
+
+(** ** The printed texts are plain *)
+Lemma plain_text_app a b : plain_text (a ++ b) = plain_text a && plain_text b.
+Proof. apply forallb_app. Qed.
+
+Lemma plain_join sep l : plain_text sep = true -> forallb plain_text l = true -> plain_text (join sep l) = true.
 Proof.
-  revert x. induction l as [|y l IH]; intro x.
-  - cbn [map join]. rewrite <- (app_nil_r (enc_item x)) at 1. rewrite split44_item. cbn [split_unesc].
-    now rewrite app_nil_r, rev_involutive.
-  - change (join [44] (map enc_item (x :: y :: l))) with (enc_item x ++ [44] ++ join [44] (map enc_item (y :: l))).
-    rewrite split44_item. cbn [app split_unesc]. cbn [N.eqb Pos.eqb].
-    rewrite app_nil_r, rev_involutive, IH. reflexivity.
+  intros Hs. induction l as [|x r IH]; [reflexivity|]. cbn [forallb]. intro H.
+  apply andb_true_iff in H as [Hx Hr]. destruct r as [|y r']; [exact Hx|].
+  change (join sep (x :: y :: r')) with (x ++ sep ++ join sep (y :: r')).
+  now rewrite !plain_text_app, Hx, Hs, IH.
 Qed.
 
-Lemma all_some_decode l : all_some (map decode_item (map enc_item l)) = Some l.
-Proof. induction l as [|p l IH]; [reflexivity|]. cbn [map all_some]. now rewrite decode_item_enc, IH. Qed.
-
-Lemma enc_item_nonnil p r : enc_item p ++ r <> [].
-Proof. destruct p as [k v]. unfold enc_item. cbn [fst]. destruct (esc k); discriminate. Qed.
-
-Lemma decode_strings_join l : decode_strings (join [44] (map enc_item l)) = Some l.
+Lemma digit_plain c : is_digit c = true -> plain_char c = true.
 Proof.
-  destruct l as [|x l]; [reflexivity|]. unfold decode_strings.
-  destruct (join [44] (map enc_item (x :: l))) eqn:E.
-  - exfalso. destruct l; cbn [map join] in E.
-    + apply (enc_item_nonnil x []). now rewrite app_nil_r.
-    + now apply enc_item_nonnil in E.
-  - rewrite <- E, split44_join. apply all_some_decode.
+  unfold is_digit, plain_char. intro H. apply andb_true_iff in H as [H1 H2]. apply N.leb_le in H1, H2.
+  apply andb_true_iff. split; apply negb_true_iff, N.eqb_neq; lia.
 Qed.
 
-Lemma encode_strings emit s : forall l, all_some (map string_binding s) = Some l ->
-  map (encode_kv emit) s = map enc_item l.
+Lemma dec_digits_digits f : forall n acc, forallb is_digit acc = true -> forallb is_digit (dec_digits f n acc) = true.
 Proof.
-  induction s as [|[k v] s IH]; intros l H; cbn in H.
-  - inversion H. reflexivity.
-  - unfold string_binding in H at 1. cbn [fst snd] in H. destruct v; try discriminate.
-    destruct (all_some (map string_binding s)) as [l'|]; [|discriminate]. inversion H; subst.
-    cbn [map]. f_equal. now apply IH.
+  induction f as [|f IH]; intros n acc H; [exact H|]. cbn [dec_digits].
+  assert (Hm : n mod 10 < 10) by (apply N.mod_lt; lia). destruct (is_digit_small _ Hm) as [D _].
+  assert (H' : forallb is_digit ((48 + n mod 10) :: acc) = true) by (cbn [forallb]; now rewrite D).
+  destruct (n <? 10); auto.
 Qed.
 
-(** Whatever Emit does, the encoding of a set holding only strings decodes to exactly its bindings. *)
-Lemma encode_lossless emit s : EncodingSpec s (encode emit s).
-Proof. intros l H. unfold encode. rewrite (encode_strings emit s l H). apply decode_strings_join. Qed.
+Lemma dec_i64_plain n : plain_text (dec_i64 n) = true.
+Proof.
+  assert (P : forall m, plain_text (dec m) = true).
+  { intro m. unfold plain_text. apply forallb_forall. intros c Hc.
+    pose proof (dec_digits_digits 25 m [] eq_refl) as D. eapply forallb_forall in D; eauto. now apply digit_plain. }
+  unfold dec_i64. destruct (n <? TWO63); [apply P|]. change (plain_text (45 :: dec (TWO64 - n))) with (plain_char 45 && plain_text (dec (TWO64 - n))). now rewrite (P (TWO64 - n)).
+Qed.
+
+Lemma text_bool_plain b : plain_text (text_bool b) = true.
+Proof. destruct b; reflexivity. Qed.
+
+Lemma forallb_map {A B} (f : A -> B) (p : B -> bool) l : forallb p (map f l) = forallb (fun x => p (f x)) l.
+Proof. induction l; cbn; congruence. Qed.
+
+Lemma text_bools_plain l : plain_text (text_bools l) = true.
+Proof.
+  unfold text_bools. rewrite !plain_text_app. rewrite plain_join; [reflexivity|reflexivity|].
+  rewrite forallb_map. apply forallb_forall. intros b _. apply text_bool_plain.
+Qed.
+
+Lemma text_ints_plain l : plain_text (text_ints l) = true.
+Proof.
+  unfold text_ints. rewrite !plain_text_app. rewrite plain_join; [reflexivity|reflexivity|].
+  rewrite forallb_map. apply forallb_forall. intros n _. apply dec_i64_plain.
+Qed.
+
+Lemma json_plain_char c : json_plain c = true ->
+  json_esc c = [c] /\ plain_char c = true /\ (c <? 128) = true.
+Proof.
+  unfold json_plain. intro H. apply andb_true_iff in H as [H H3]. apply andb_true_iff in H as [H1 H2].
+  apply N.leb_le in H1, H2. apply negb_true_iff in H3.
+  repeat (apply orb_false_iff in H3 as [H3 ?]).
+  repeat match goal with E : (_ =? _) = false |- _ => apply N.eqb_neq in E end.
+  assert (E8 : (c =? 8) = false) by (apply N.eqb_neq; lia).
+  assert (E12 : (c =? 12) = false) by (apply N.eqb_neq; lia).
+  assert (E10 : (c =? 10) = false) by (apply N.eqb_neq; lia).
+  assert (E13 : (c =? 13) = false) by (apply N.eqb_neq; lia).
+  assert (E9 : (c =? 9) = false) by (apply N.eqb_neq; lia).
+  assert (E34 : (c =? 34) = false) by (apply N.eqb_neq; lia).
+  assert (E92 : (c =? 92) = false) by (apply N.eqb_neq; lia).
+  assert (E60 : (c =? 60) = false) by (apply N.eqb_neq; lia).
+  assert (E62 : (c =? 62) = false) by (apply N.eqb_neq; lia).
+  assert (E38 : (c =? 38) = false) by (apply N.eqb_neq; lia).
+  assert (E61 : (c =? 61) = false) by (apply N.eqb_neq; lia).
+  assert (L32 : (c <? 32) = false) by (apply N.ltb_ge; lia).
+  unfold json_esc, plain_char. rewrite E34, E92, E8, E12, E10, E13, E9, L32, E60, E62, E38, E61.
+  repeat split. apply N.ltb_lt. lia.
+Qed.
+
+Lemma json_string_plain s : forallb json_plain s = true ->
+  json_string s = [34] ++ s ++ [34] /\ plain_text (json_string s) = true /\ forallb (fun c => c <? 128) s = true.
+Proof.
+  intro H. assert (E : flat_map json_esc s = s /\ plain_text s = true /\ forallb (fun c => c <? 128) s = true).
+  { induction s as [|c s IH]; [repeat split|]. cbn [forallb] in H. apply andb_true_iff in H as [Hc Hs].
+    destruct (json_plain_char c Hc) as (J1 & J2 & J3). destruct (IH Hs) as (I1 & I2 & I3).
+    cbn [flat_map plain_text forallb]. rewrite J1, I1, J2, J3. cbn [app]. repeat split; auto. }
+  destruct E as (E1 & E2 & E3). unfold json_string. rewrite E1. repeat split; auto.
+  rewrite !plain_text_app, E2. reflexivity.
+Qed.
+
+Lemma text_strs_plain l : forallb (forallb json_plain) l = true ->
+  plain_text (text_strs l) = true /\ forallb (forallb (fun c => c <? 128)) l = true.
+Proof.
+  intro H. split.
+  - unfold text_strs. rewrite !plain_text_app. rewrite plain_join; [reflexivity|reflexivity|].
+    rewrite forallb_map. apply forallb_forall. intros s Hs. eapply forallb_forall in H; eauto.
+    now destruct (json_string_plain s H) as (_ & P & _).
+  - apply forallb_forall. intros s Hs. eapply forallb_forall in H; eauto.
+    now destruct (json_string_plain s H) as (_ & _ & P).
+Qed.
+
+(** Tokens of the value part of an item. *)
+Definition btoks (v : value) : list token :=
+  match v with
+  | VStr s => map TChar s
+  | v => match print_value v with Some t => map ptok t | None => [] end
+  end.
+
+Definition body_of (emit : value -> bytes) (v : value) : bytes :=
+  match v with
+  | VStr s => esc s
+  | v => match emit_simple v with Some t => t | None => emit v end
+  end.
+
+Lemma noeq_btoks v : noeq (btoks v) = true.
+Proof. destruct v; cbn [btoks]; try apply noeq_tchar; try (destruct (print_value _); [apply noeq_ptok|reflexivity]). Qed.
+
+Lemma body_tok emit v t rest : print_value v = Some t ->
+  tok (body_of emit v ++ rest) = btoks v ++ tok rest /\ untok (btoks v) = t.
+Proof.
+  intro H. destruct v; cbn [print_value] in H; try discriminate.
+  - inversion H; subst. cbn [body_of emit_simple btoks print_value]. split; [now apply tok_plain|apply untok_ptok].
+  - inversion H; subst. cbn [body_of emit_simple btoks print_value]. split; [apply tok_plain, text_bool_plain|apply untok_ptok].
+  - inversion H; subst. cbn [body_of emit_simple btoks print_value]. split; [apply tok_plain, dec_i64_plain|apply untok_ptok].
+  - inversion H; subst. cbn [body_of btoks]. split; [apply tok_esc|apply untok_tchar].
+  - inversion H; subst. cbn [body_of emit_simple btoks print_value]. split; [apply tok_plain, text_bools_plain|apply untok_ptok].
+  - inversion H; subst. cbn [body_of emit_simple btoks print_value]. split; [apply tok_plain, text_ints_plain|apply untok_ptok].
+  - destruct (forallb (forallb json_plain) l) eqn:E; [|discriminate]. inversion H; subst.
+    destruct (text_strs_plain l E) as [P A]. cbn [body_of emit_simple btoks print_value]. rewrite E, A.
+    split; [now apply tok_plain|apply untok_ptok].
+Qed.
+
+(** ** Token-level structure of an encoded set and its parsing *)
+Definition tpair : Type := (list token * list token)%type.
+
+Fixpoint tail_toks (B : list token) (rest : list tpair) : list token :=
+  match rest with
+  | [] => B
+  | (K', B') :: r => B ++ TComma :: K' ++ TEq :: tail_toks B' r
+  end.
+
+Fixpoint chunks_of (B : list token) (rest : list tpair) : list (list token) :=
+  match rest with
+  | [] => [B]
+  | (K', B') :: r => (B ++ TComma :: K') :: chunks_of B' r
+  end.
+
+Definition tp_ok (p : tpair) : bool := noeq (fst p) && noeq (snd p) && nocomma (fst p).
+
+Lemma split_eq_noeq A : noeq A = true -> split_eq A = [A].
+Proof.
+  induction A as [|t A IH]; [reflexivity|]. cbn [noeq forallb]. intro H.
+  apply andb_true_iff in H as [H1 H2]. apply negb_true_iff in H1. cbn [split_eq]. rewrite H1.
+  now rewrite (IH H2).
+Qed.
+
+Lemma split_eq_app A X : noeq A = true -> split_eq (A ++ TEq :: X) = A :: split_eq X.
+Proof.
+  induction A as [|t A IH]; [reflexivity|]. cbn [noeq forallb]. intro H.
+  apply andb_true_iff in H as [H1 H2]. apply negb_true_iff in H1. cbn [app split_eq]. rewrite H1.
+  now rewrite (IH H2).
+Qed.
+
+Lemma noeq_app a b : noeq (a ++ b) = noeq a && noeq b.
+Proof. apply forallb_app. Qed.
+
+Lemma split_tail B rest : noeq B = true -> forallb tp_ok rest = true ->
+  split_eq (tail_toks B rest) = chunks_of B rest.
+Proof.
+  revert B. induction rest as [|[K' B'] r IH]; intros B HB Hr; cbn [tail_toks chunks_of].
+  - now apply split_eq_noeq.
+  - cbn [forallb] in Hr. apply andb_true_iff in Hr as [Hp Hr]. unfold tp_ok in Hp. cbn [fst snd] in Hp.
+    apply andb_true_iff in Hp as [Hp H3]. apply andb_true_iff in Hp as [H1 H2].
+    change (B ++ TComma :: K' ++ TEq :: tail_toks B' r) with (B ++ (TComma :: K') ++ TEq :: tail_toks B' r).
+    rewrite app_assoc. rewrite split_eq_app; [now rewrite IH|].
+    rewrite noeq_app, HB. cbn [noeq forallb is_eq negb andb]. exact H1.
+Qed.
+
+Lemma cut_first_comma_app A Y : nocomma A = true -> cut_first_comma (A ++ TComma :: Y) = Some (A, Y).
+Proof.
+  induction A as [|t A IH]; [reflexivity|]. cbn [nocomma forallb]. intro H.
+  apply andb_true_iff in H as [H1 H2]. apply negb_true_iff in H1. cbn [app cut_first_comma]. rewrite H1.
+  now rewrite (IH H2).
+Qed.
+
+Lemma nocomma_rev K : nocomma K = true -> nocomma (rev K) = true.
+Proof.
+  intro H. apply forallb_forall. intros t Ht. apply in_rev in Ht. eapply forallb_forall in H; eauto.
+Qed.
+
+Lemma cut_last_comma_app B K : nocomma K = true -> cut_last_comma (B ++ TComma :: K) = Some (B, K).
+Proof.
+  intro H. unfold cut_last_comma. rewrite rev_app_distr. cbn [rev]. rewrite <- app_assoc. cbn [app].
+  rewrite cut_first_comma_app by now apply nocomma_rev. now rewrite !rev_involutive.
+Qed.
+
+Lemma chunks_of_cons B rest : exists c more, chunks_of B rest = c :: more.
+Proof. destruct rest as [|[K' B'] r]; cbn; eauto. Qed.
+
+Lemma dec_chunks_ok rest : forall K B, forallb tp_ok rest = true ->
+  dec_chunks K (chunks_of B rest) = Some ((K, B) :: rest).
+Proof.
+  induction rest as [|[K' B'] r IH]; intros K B Hr; [reflexivity|].
+  cbn [forallb] in Hr. apply andb_true_iff in Hr as [Hp Hr]. unfold tp_ok in Hp. cbn [fst snd] in Hp.
+  apply andb_true_iff in Hp as [_ H3].
+  cbn [chunks_of dec_chunks]. destruct (chunks_of_cons B' r) as (c & more & E). rewrite E, <- E.
+  now rewrite cut_last_comma_app, IH.
+Qed.
+
+Definition tpairs (s : list kv) : list tpair := map (fun x => (map TChar (fst x), btoks (snd x))) s.
+
+Lemma tpairs_ok s : forallb tp_ok (tpairs s) = true.
+Proof.
+  induction s as [|x s IH]; [reflexivity|]. cbn [tpairs map forallb]. unfold tp_ok at 1. cbn [fst snd].
+  rewrite noeq_tchar, noeq_btoks, nocomma_tchar. exact IH.
+Qed.
+
+Lemma join_cons sep x r : join sep (x :: r) = x ++ match r with [] => [] | _ :: _ => sep ++ join sep r end.
+Proof. destruct r; cbn [join]; [now rewrite app_nil_r|reflexivity]. Qed.
+
+Lemma printed_cons x s l : printed (x :: s) = Some l ->
+  exists t l', print_value (snd x) = Some t /\ printed s = Some l' /\ l = (fst x, t) :: l'.
+Proof.
+  unfold printed. cbn [map all_some]. unfold printed_binding at 1.
+  destruct (print_value (snd x)) as [t|]; [|discriminate].
+  destruct (all_some (map printed_binding s)) as [l'|]; [|discriminate]. intro H. inversion H. eauto.
+Qed.
+
+Lemma encode_kv_body emit x : encode_kv emit x = esc (fst x) ++ 61 :: body_of emit (snd x).
+Proof. destruct x as [k v]. destruct v; reflexivity. Qed.
+
+Lemma encode_cons emit x s :
+  encode emit (x :: s) = encode_kv emit x ++ match s with [] => [] | _ :: _ => 44 :: encode emit s end.
+Proof. unfold encode. cbn [map]. rewrite join_cons. destruct s; reflexivity. Qed.
+
+Lemma tok_item emit x t rest : print_value (snd x) = Some t ->
+  tok (encode_kv emit x ++ rest) = map TChar (fst x) ++ TEq :: btoks (snd x) ++ tok rest.
+Proof.
+  intro Hv. rewrite encode_kv_body, <- app_assoc, tok_esc. f_equal.
+  change ((61 :: body_of emit (snd x)) ++ rest) with (61 :: (body_of emit (snd x) ++ rest)).
+  change (tok (61 :: (body_of emit (snd x) ++ rest))) with (TEq :: tok (body_of emit (snd x) ++ rest)).
+  f_equal. now destruct (body_tok emit _ _ rest Hv) as [-> _].
+Qed.
+
+Lemma tok_encode emit : forall s x l, printed (x :: s) = Some l ->
+  tok (encode emit (x :: s)) = map TChar (fst x) ++ TEq :: tail_toks (btoks (snd x)) (tpairs s).
+Proof.
+  induction s as [|y s IH]; intros x l H; apply printed_cons in H as (t & l' & Hv & Hs & _); rewrite encode_cons.
+  - rewrite (tok_item emit x t [] Hv). cbn [tok tail_toks tpairs map]. now rewrite app_nil_r.
+  - rewrite (tok_item emit x t _ Hv). f_equal. f_equal.
+    change (tok (44 :: encode emit (y :: s))) with (TComma :: tok (encode emit (y :: s))).
+    rewrite (IH y l' Hs). reflexivity.
+Qed.
+
+Lemma untok_tpairs s : forall l, printed s = Some l ->
+  map (fun p => (untok (fst p), untok (snd p))) (tpairs s) = l.
+Proof.
+  induction s as [|x s IH]; intros l H.
+  - cbn in H. inversion H. reflexivity.
+  - apply printed_cons in H as (t & l' & Hv & Hs & ->). unfold tpairs. cbn [map fst snd]. fold (tpairs s).
+    rewrite untok_tchar. destruct (body_tok (fun _ => []) _ _ [] Hv) as [_ E]. f_equal; [f_equal; exact E | exact (IH l' Hs)].
+Qed.
+
+Lemma encode_nonnil emit x s : encode emit (x :: s) <> [].
+Proof.
+  unfold encode. cbn [map]. rewrite join_cons. unfold encode_kv at 1. destruct (esc (fst x)); discriminate.
+Qed.
+
+(** The encoding of any set inside the printing specification decodes to its printed mapping. *)
+Lemma encode_decodable emit s : EncodingSpec s (encode emit s).
+Proof.
+  intros l H. destruct s as [|x s].
+  - cbn in H. inversion H. reflexivity.
+  - unfold decode_enc. destruct (encode emit (x :: s)) eqn:E; [now apply encode_nonnil in E|]. rewrite <- E.
+    rewrite (tok_encode emit s x l H).
+    rewrite split_eq_app by apply noeq_tchar.
+    rewrite split_tail by (try apply noeq_btoks; apply tpairs_ok).
+    rewrite dec_chunks_ok by apply tpairs_ok.
+    f_equal. exact (untok_tpairs (x :: s) l H).
+Qed.
+
+(** Same encoding, same printed mapping. *)
+Lemma encode_injective_printed emit1 emit2 s1 s2 l1 l2 :
+  printed s1 = Some l1 -> printed s2 = Some l2 -> encode emit1 s1 = encode emit2 s2 -> l1 = l2.
+Proof.
+  intros H1 H2 E. pose proof (encode_decodable emit1 s1 l1 H1) as D1.
+  pose proof (encode_decodable emit2 s2 l2 H2) as D2. rewrite E in D1. congruence.
+Qed.
 
 Lemma strpair_eqb_eq a b : strpair_eqb a b = true <-> a = b.
 Proof.
@@ -1012,6 +1347,17 @@ Qed.
 Lemma encoding_ok_sound s enc : encoding_ok s enc = true -> EncodingSpec s enc.
 Proof.
   unfold encoding_ok, EncodingSpec. intros H l Hl. rewrite Hl in H.
-  destruct (decode_strings enc) as [d|]; [|discriminate]. cbn in H.
+  destruct (decode_enc enc) as [d|]; [|discriminate]. cbn in H.
   apply (list_eqb_eq _ strpair_eqb_eq) in H. now subst.
+Qed.
+
+(** A set whose values are all strings is inside the specification and prints as itself. *)
+Definition string_binding (x : kv) : option (bytes * bytes) :=
+  match snd x with VStr s => Some (fst x, s) | _ => None end.
+Lemma printed_strings s : forall l, all_some (map string_binding s) = Some l -> printed s = Some l.
+Proof.
+  unfold printed. induction s as [|[k v] s IH]; intros l H; [exact H|]. cbn [map all_some] in *.
+  unfold string_binding in H at 1. cbn [fst snd] in H. destruct v; try discriminate.
+  unfold printed_binding at 1. cbn [fst snd print_value].
+  destruct (all_some (map string_binding s)) as [l'|]; [|discriminate]. now rewrite (IH l' eq_refl).
 Qed.
